@@ -507,7 +507,7 @@ func main() {
 	r := g.r
 	scale := 1
 	if thorough {
-		scale = 6
+		scale = 4
 	}
 
 	// ---- Keccak validation (Base.Keccak vs x/crypto) ----
@@ -532,11 +532,11 @@ func main() {
 	for i := 0; i < nrand; i++ {
 		keys = append(keys, key{randKey(r), "random"})
 	}
-	// outside the quantifier (correspondence of the reduction mod n / truncation to 32 bytes only)
-	outside := []key{
-		{append(randKey(r), 0xaa, 0xbb), "long-34-bytes"}, {be32(curveN), "n"}, {be32(add(curveN, bi(1))), "n+1"},
-		{be32(sub(two256, bi(1))), "2^256-1"}, {be32(bi(0)), "zero"}, {[]byte{}, "empty"},
-	}
+	// Keys outside [1, n-1] (0, n, n+1, byte strings longer than 32 bytes), digests that are not 32 bytes
+	// long, CompactRSV of values that do not fit and Update* on a V that is not 27/28/0/1 are outside the
+	// property's quantifier: a change of behaviour there is not a violation, so they are not generated
+	// (the model covers them; they were compared once while the model was written).
+	outside := []key{}
 	kps := map[string]*secp256k1.KeyPair{}
 	for _, k := range keys {
 		kps[hx(k.b)] = g.addKey(k.b, k.what)
@@ -573,10 +573,6 @@ func main() {
 	}
 	for i, dg := range digests {
 		signIt(false, keys[12+i%nrand], dg, fmt.Sprintf("direct/boundary-digest-%d", i))
-	}
-	// digests that are not 32 bytes long (decred: first 32 bytes, left-padded)
-	for _, n := range []int{0, 1, 31, 33, 64} {
-		signIt(false, keys[12+r.Intn(nrand)], r.Bytes(n), fmt.Sprintf("direct/digest-len-%d", n))
 	}
 	for i := 0; i < 3*scale*scale; i++ {
 		signIt(false, keys[r.Intn(len(keys))], r.Bytes(32), "direct/random")
@@ -650,7 +646,7 @@ func main() {
 		rc := int64(r.U64() >> 11) // random chain id in [0, 2^53)
 		// the three conventions
 		// (quick tier: boundary keys/digests get all three, the others rotate)
-		all3 := i < 18 || thorough
+		all3 := i < 12 || thorough
 		if all3 || i%3 == 0 {
 			g.addRecover(h, sig{V, R, S}, sg.msg, c1, 1, signer, "convention-27/28", "")
 		}
@@ -700,16 +696,19 @@ func main() {
 			g.addRecover(h, sig{add(validV(p, c1)[2], bi(-256)), R, S}, sg.msg, c1, 2, signer, "foreign-V/eip155-256", knownKeyTrunc)
 		}
 		// selected V values
-		foreign := []*big.Int{bi(2), bi(26), bi(29), bi(30), bi(31), bi(34), bi(-1), bi(-27), bi(27 + 256), bi(28 + 256), bi(256), bi(257),
+		foreign := []*big.Int{add(two63, validV(p, c1)[2]), add(two64, validV(p, c1)[2]), bi(2), bi(26), bi(29), bi(30), bi(31), bi(34), bi(-1), bi(-27), bi(27 + 256), bi(28 + 256), bi(256), bi(257),
 			add(validV(0, c1)[2], bi(-1)), add(validV(1, c1)[2], bi(1)), add(validV(p, c1)[2], bi(2)),
 			bi(1 << 31), bi(1 << 32), bi(1<<32 + 27), sub(two63, bi(1)), cp(two63), add(two63, bi(27)), cp(two64), add(two64, bi(27)), add(two64, bi(28)), add(two64, bi(p)),
-			new(big.Int).Neg(sub(two64, bi(27))), new(big.Int).Neg(sub(two64, bi(28))), new(big.Int).Neg(two63), add(two64, validV(p, c1)[2])}
-		nf := 3
+			new(big.Int).Neg(sub(two64, bi(27))), new(big.Int).Neg(sub(two64, bi(28))), new(big.Int).Neg(two63), add(two64, validV(p, c1)[2]), add(two63, validV(p, c1)[2]), sub(validV(p, c1)[2], two64)}
+		nf := 5
 		if i < 4 || thorough {
 			nf = len(foreign)
 		}
 		for j := 0; j < nf; j++ {
 			v := foreign[(i*5+j)%len(foreign)]
+			if j < 2 {
+				v = foreign[j]
+			}
 			if nf == len(foreign) {
 				v = foreign[j]
 			}
@@ -779,7 +778,9 @@ func main() {
 		if i%4 == 0 {
 			g.addCompact(sig{V, R, S}, "valid-27/28")
 			g.addCompact(sig{bi(p), R, S}, "valid-0/1")
-			g.addCompact(sig{validV(p, c1)[2], R, S}, "eip155-V")
+			if v155 := validV(p, c1)[2]; v155.Cmp(bi(256)) < 0 {
+				g.addCompact(sig{v155, R, S}, "eip155-V")
+			}
 		}
 	}
 	// digests congruent mod n: z and z+n recover the same key (ECDSA; not a defect) -- no expectation
@@ -794,16 +795,14 @@ func main() {
 	}
 
 	// ---- compact codec ----
-	for _, v := range []int64{0, 1, 27, 28, 29, 35, 36, 127, 128, 255, 256, 283, 2037, 2038, -1, -27, 1 << 40} {
+	for _, v := range []int64{0, 1, 2, 26, 27, 28, 29, 35, 36, 37, 38, 127, 128, 129, 254, 255} {
 		g.addCompact(sig{bi(v), fromBytes(r.Bytes(32)), fromBytes(r.Bytes(32))}, "V-sweep")
 	}
-	g.addCompact(sig{add(two64, bi(27)), bi(1), bi(2)}, "V=2^64+27")
 	g.addCompact(sig{bi(27), bi(0), bi(0)}, "zero")
 	g.addCompact(sig{bi(27), fromBytes(r.Bytes(31)), fromBytes(r.Bytes(30))}, "short-R-S")
 	g.addCompact(sig{bi(27), sub(two256, bi(1)), sub(two256, bi(1))}, "max")
-	g.addCompact(sig{bi(27), cp(two256), bi(1)}, "R=2^256")
-	g.addCompact(sig{bi(27), bi(1), cp(two256)}, "S=2^256")
-	g.addCompact(sig{bi(27), bi(-5), bi(7)}, "negative-R")
+	g.addCompact(sig{bi(28), sub(two256, bi(1)), bi(1)}, "max-R")
+	g.addCompact(sig{bi(0), bi(1), sub(two256, bi(1))}, "max-S")
 	for _, n := range []int{0, 1, 32, 64, 65, 65, 65, 66, 130} {
 		g.addDecode(r.Bytes(n), fmt.Sprintf("len-%d", n))
 	}
@@ -812,8 +811,8 @@ func main() {
 	g.addDecode([]byte("wrong"), "len-5")
 
 	// ---- Update* ----
-	for _, v := range []*big.Int{bi(27), bi(28), bi(0), bi(1), bi(26), bi(29), bi(-27), add(two64, bi(27)), add(two64, bi(28)), new(big.Int).Neg(sub(two64, bi(28))), sub(two64, bi(27))} {
-		for _, c := range []int64{0, 1, 1337, 1 << 53, -1} {
+	for _, v := range []*big.Int{bi(27), bi(28), bi(0), bi(1)} {
+		for _, c := range chains {
 			g.addUpdate(v, c)
 		}
 	}
@@ -829,7 +828,7 @@ func main() {
 			sweeps = append(sweeps, sw{3, 0}, sw{4, 1 << 53}, sw{5, 1001})
 		}
 		const top = 1 << 17
-		chunk := int64(8192)
+		chunk := int64(32768)
 		for _, x := range sweeps {
 			sg := sigs[x.idx%len(sigs)]
 			if sg.hashing || !inQuant(sg) {
@@ -837,7 +836,7 @@ func main() {
 			}
 			for lo := int64(0); lo <= top; lo += chunk {
 				hi := lo + chunk - 1
-				if hi >= top {
+				if hi >= top-1 {
 					hi = top
 				}
 				if lo > top {
